@@ -245,6 +245,9 @@ def check_tokens(acc, pendulum, z, f, loc, pairs=False):
             acc.mismatch("literal", "escape", dict(case, fmt=fmt), got, want)
 
 
+DEFAULT_LOCALES = ("fr", "ru")
+
+
 def check_named(acc, pendulum, z, f):
     x, nat, inst, zname = mk(pendulum, z, f)
     case = {"kind": "named", "z": z, "f": list(f)}
@@ -270,6 +273,23 @@ def check_named(acc, pendulum, z, f):
             got = f"raises {type(e).__name__}"
         if got != want:
             acc.mismatch("named", name, dict(case, name=name), got, want)
+    # under a non-English process-wide default locale: the helpers that are numeric, and the two the library pins
+    # to English (cookie, day-datetime), must not change
+    stable = ("to_date_string", "to_formatted_date_string", "to_time_string", "to_datetime_string", "to_day_datetime_string",
+              "to_atom_string", "to_cookie_string", "to_iso8601_string", "to_rfc3339_string", "to_w3c_string")
+    for dl in DEFAULT_LOCALES:
+        pendulum.set_locale(dl)
+        try:
+            for name in stable:
+                acc.c["evaluations"] += 1
+                try:
+                    got = getattr(x, name)()
+                except Exception as e:  # noqa: BLE001
+                    got = f"raises {type(e).__name__}"
+                if got != exp[name]:
+                    acc.mismatch("named", f"{name}/default-locale", dict(case, name=name, default_locale=dl), got, exp[name])
+        finally:
+            pendulum.set_locale("en")
     if nat.tzinfo is not None and nat.strftime("%z")[5:] == "":
         # cross-check the composed helpers against pure strftime where the C locale agrees with 'en'
         if x.to_rfc2822_string() != nat.strftime("%a, %d %b %Y %H:%M:%S %z"):
